@@ -194,6 +194,12 @@ def sign_table(ctx):
     for name in ("2DPGA", "3DPGA"):
         basis, pqr = read_named_basis(repo, name)
         configs[f"named basis {name}"] = dict(p=pqr[0], q=pqr[1], r=pqr[2], basis=basis)
+    if ctx.tier == "thorough":
+        basis, pqr = read_named_basis(repo, "STAP")
+        configs["named basis STAP (d=5)"] = dict(p=pqr[0], q=pqr[1], r=pqr[2], basis=basis)
+        configs["default d=5, signature [+,-,0,+,-]"] = dict(signature=[1, -1, 0, 1, -1])
+        configs["custom basis d=4, spelled blades"] = dict(p=3, q=1, basis=[
+            "e", "e4", "e2", "e1", "e3", "e24", "e14", "e43", "e21", "e32", "e13", "e421", "e432", "e314", "e123", "e1234"])
     for label, kwargs in configs.items():
         check_table(ctx, repo, label, kwargs, f"algebra.Algebra._prepare_signs#{label}", fn)
 
@@ -209,6 +215,10 @@ def lazy_eager(ctx):
     sample = [0, 1, 2, 64, 3, 65, 66, 7, 96, 21, 42, 85, 127, 126, 15, 112]
     pairs = [(a, b) for a in sample for b in sample]
     res = check_table(ctx, repo, "default d=7 (lazy)", dict(p=4, q=2, r=1), "algebra.Algebra._prepare_signs#lazy d=7", fn, pairs)
+    if ctx.tier == "thorough":
+        sample8 = [0, 1, 128, 129, 3, 192, 85, 170, 255, 254, 15, 240, 51, 204, 7, 224]
+        check_table(ctx, repo, "explicit signature d=8 (lazy)", dict(signature=[1, -1, 0, 1, 1, -1, 1, 0]),
+                    "algebra.Algebra._prepare_signs#lazy d=8", fn, [(a, b) for a in sample8 for b in sample8])
     if res is not None:
         it, alg, signs = res
         if not (isinstance(signs, Obj) and signs.kind == "DefaultKeyDict"):
